@@ -14,7 +14,8 @@ if 'VIOLATION' in text: sys.exit('a log contains VIOLATION lines: classify first
 keep=[];dropped=0
 for e in known:
     if e['property']!=prop or e['status']!='known': keep.append(e); continue
-    if f"KNOWN-FINDING: property={prop} {e['signature']} — " in text or f"KNOWN-FINDING: property={prop} {e['signature']}\n" in text: keep.append(e)
+    pat=re.compile(re.escape(f"KNOWN-FINDING: property={prop} {e['signature']} — ")+r".*\(observed=([0-9]+)\)$",re.M)
+    if any(int(m.group(1))>0 for m in pat.finditer(text)): keep.append(e)
     else: dropped+=1; print('drop',e['signature'][:150])
 print(prop,'dropped',dropped,'kept',sum(1 for e in keep if e['property']==prop and e['status']=='known'))
 if not dry: json.dump(keep,open('/verif/known_findings.json','w'),indent=1)
